@@ -7,4 +7,5 @@ INVS = ["FinalizedIff", "HighestIsFinalized", "WatermarkDecided", "AncestorsFina
 
 
 def run(ctx):
-    return c07.run(ctx, invs=INVS, rel=P.rel_c08, witnesses=("W_Finalized", "W_Pruned"))
+    return c07.run(ctx, invs=INVS, rel=P.rel_c08, witnesses=("W_Finalized", "W_Pruned"),
+                   node_rel=lambda a: "fin" in a or "panic" in a)
